@@ -15,6 +15,7 @@ import (
 
 	secp256k1 "gitlab.com/yawning/secp256k1-voi"
 	"gitlab.com/yawning/secp256k1-voi/secec"
+	"gitlab.com/yawning/secp256k1-voi/secec/bitcoin"
 
 	"verif/lib"
 	"verif/mc"
@@ -71,6 +72,15 @@ func runBase(s *big.Int, path int, want ref.Pt) string {
 		k2, err := secec.NewPrivateKey(ref.B32(s))
 		if err != nil || !bytes.Equal(k2.PublicKey().Bytes(), want.Uncompressed()) {
 			return "NewPrivateKey(d).PublicKey() != d*G"
+		}
+		// history: other keys are derived from this one; d must still be mapped to d*G afterwards
+		_ = bitcoin.NewSchnorrPrivateKeyFromECDSA(k2)
+		_ = bitcoin.NewSchnorrPublicKeyFromECDSA(k2.PublicKey())
+		if m := lib.CheckPointLight(k2.PublicKey().Point(), want); m != "" {
+			return "after deriving a Schnorr key pair from the key, its public point is no longer d*G: " + m
+		}
+		if !bytes.Equal(k2.PublicKey().Bytes(), want.Uncompressed()) || !bytes.Equal(k2.PublicKey().CompressedBytes(), want.Compressed()) {
+			return "after deriving a Schnorr key pair from the key, its public encodings are no longer those of d*G"
 		}
 		return ""
 	}
